@@ -81,6 +81,14 @@ impl Case {
             6 => 300_000,
             _ => LIMIT, // "up to just under the frame limit": clipped by max_item below
         };
+        if class % 16 == 9 && i < 3 && self.batching.is_none() && self.comp.is_none() && self.codec % 3 != 2 {
+            // the largest payloads an unbatched, uncompressed publisher accepts: the Message
+            // frame's own encoding adds 1 (Option tag) + 8 (length) bytes
+            let n = LIMIT - 9 - (i % 9);
+            let mut v = format!("item-{i}-").into_bytes();
+            v.resize(n, b'L');
+            return v;
+        }
         // keep the total volume of a case bounded (~3 MiB)
         let fair = (3 * LIMIT) / self.count().max(1);
         let n = want.min(self.max_item()).min(fair.max(16));
@@ -416,7 +424,7 @@ pub fn strategy() -> BoxedStrategy<Case> {
         3 => Just(None),
         7 => (prop_oneof![2 => Just(1u32), 4 => 2u32..12, 2 => 12u32..120, 1 => 120u32..=300, 1 => Just(0u32), 1 => Just(100_000u32)], prop_oneof![3 => Just(2u8), 2 => Just(1u8), 2 => Just(0u8), 1 => Just(3u8)]).prop_map(Some),
     ];
-    (0u8..3, comp, batching, 0u8..3, 0u8..6, any::<u8>(), any::<u16>(), proptest::collection::vec(prop_oneof![8 => 0u8..5, 2 => Just(5u8), 1 => Just(6u8), 1 => Just(7u8)], 1..6), 0u8..5, any::<bool>(), any::<u16>())
+    (0u8..3, comp, batching, 0u8..3, 0u8..6, any::<u8>(), any::<u16>(), proptest::collection::vec(prop_oneof![8 => 0u8..5, 2 => Just(5u8), 1 => Just(6u8), 1 => Just(7u8), 1 => Just(9u8)], 1..6), 0u8..5, any::<bool>(), any::<u16>())
         .prop_map(|(codec, comp, batching, nsubs, count_kind, count_k, count_r, sizes, content, use_feed, seed)| Case { codec, comp, batching, nsubs, count_kind, count_k, count_r, sizes, content, use_feed, seed })
         .boxed()
 }
